@@ -28,7 +28,7 @@ from qstrader import settings as _qs_settings
 
 _ROOT = os.environ.get("QSTRADER_ROOT", "/repo")
 assert os.path.realpath(qstrader.__file__).startswith(os.path.realpath(_ROOT)), (qstrader.__file__, _ROOT)
-_qs_settings.PRINT_EVENTS = False
+_qs_settings.PRINT_EVENTS = os.environ.get("PYVC_AMBIENT") == "1"
 
 from qstrader.data.daily_bar_csv import CSVDailyBarDataSource  # noqa: E402
 from qstrader.data.backtest_data_handler import BacktestDataHandler  # noqa: E402
@@ -104,8 +104,9 @@ WINDOWS = [
     # one week before the US switch of 2021-11-07: a US-zone stamp is shifted on all 7 days here, an EU-zone
     # stamp on the first 3 only (a window holding 2021-11-07 instead would be EU-standard throughout)
     ("2021-10-28", "contains Sun 2021-10-31, EU clocks go back (US still on daylight-saving time)"),
+    ("2150-06-04", "far in the future: bars dated after the day the check runs are bars like any other"),
 ]
-EXTRA_BASES = [b for b, _ in WINDOWS[1:]]
+EXTRA_BASES = [WINDOWS[-1][0]] + [b for b, _ in WINDOWS[1:-1]]
 
 
 def _mk(date, tm):
@@ -185,8 +186,9 @@ def csv_text(rows, lat=None):
     lines = ["Date,Open,High,Low,Close,Adj Close,Volume"]
     for d, o, c, a in rows:
         f = lambda x: "" if x is None else repr(float(x))
-        lines.append("%s,%s,%s,%s,%s,%s,%d" % (lat.days[d].isoformat(), f(o), repr(2000.0 + d), repr(1.0 + d),
-                                                 f(c), f(a), 1000 + d))
+        # High / Low / Volume are never read by the library: present on most rows, EMPTY on some (days 2, 4, 5 of the lattice)
+        lines.append("%s,%s,%s,%s,%s,%s,%s" % (lat.days[d].isoformat(), f(o), "" if d == 4 else repr(2000.0 + d),
+                                                 "" if d == 5 else repr(1.0 + d), f(c), f(a), "" if d == 2 else str(1000 + d)))
     return "\n".join(lines) + "\n"
 
 
